@@ -22,7 +22,7 @@ struct _table_arm table_arm[] =
   { "swp",   0x01000090, 0x0fb00ff0, OP_SWAP, 3, -1 },
   { "mrs",   0x010f0000, 0x0fbf0fff, OP_MRS, 3, -1 },
   { "msr",   0x0129f000, 0x0fbffff0, OP_MSR_ALL, 3, -1 },
-  { "msr",   0x0329f000, 0x0fbff000, OP_MSR_FLAG, 3, -1 },
+  { "msr",   0x0128f000, 0x0dbff000, OP_MSR_FLAG, 3, -1 },
   { "and",   0x00000000, 0x0de00000, OP_ALU_3, 3, 2 },
   { "eor",   0x00200000, 0x0de00000, OP_ALU_3, 3, 2 },
   { "sub",   0x00400000, 0x0de00000, OP_ALU_3, 3, 2 },
